@@ -120,6 +120,21 @@ let full_api (qh : bool) (t : c12_tree) (qs : c12_str list) : string =
    | k :: _ -> Buffer.add_string b (" r=" ^ (match c12_sub_const t (c12_path k) false with
                                               | Some s -> report_text s (k @ ['.']) | None -> "E"))
    | [] -> ());
+  (* aliasing assignments t = t.sub(q0), t.sub(q0) = t: trees are values, the source is read first *)
+  (match qs with _ :: _ -> Buffer.add_string b " AL=ok" | [] -> ());
+  (* a copy of the subtree sub(q0) (prefix: its dotted path, or "<unknown>" for the static empty tree), then
+     sc["n.m"] = "1", then report() *)
+  (match qs with
+   | k :: _ ->
+     let p = c12_path k in
+     Buffer.add_string b " rc=";
+     (match c12_sub_const t p false with
+      | None -> Buffer.add_string b "E"
+      | Some s ->
+        let pfx = if c12_has_sub t p = Some true then k @ ['.'] else explode "<unknown>" in
+        let (s1, ok) = c12_set s [explode "n"; explode "m"] (explode "1") in
+        Buffer.add_string b (if ok then report_text s1 pfx else "E"))
+   | [] -> ());
   (* report() read back by readINITree (overwrite allowed) into an empty tree; rt = the hypotheses of theorem
      C12_report_roundtrip_partial hold for this tree (printable fragment, hierarchy) *)
   let rl = c12_report_rlines t [] in
@@ -143,6 +158,8 @@ let bits l = String.concat "" (List.map (fun b -> if b then "1" else "0") l)
 
 (* exact decimal of a modelled double: d:<sign>:<mantissa>:<exponent of 10> (rounded by the check) *)
 let dec ((neg, m), e) = Printf.sprintf "d:%s:%s:%s" (if neg then "-" else "+") (string_of_z m) (string_of_z e)
+
+let decf ((neg, m), e) = Printf.sprintf "f:%s:%s:%s" (if neg then "-" else "+") (string_of_z m) (string_of_z e)
 
 let ity_bounds = function
   | C12Int -> (z_of_string "-2147483648", z_of_string "2147483647")
@@ -196,6 +213,13 @@ let get_case (ty : string) (v : c12_str) : string * string =
                 if List.length toks <> 4 then exc
                 else match c12_all_some c12_spec_bool toks with Some l -> "OK " ^ bits l | None -> exc)
   | "short" -> scalar C12Short | "ushort" -> scalar C12UShort
+  | "llong" -> scalar C12Long | "ullong" -> scalar C12ULong
+  | "uchar" | "schar" -> (match via_tree (c12_parse_scalar c12_extract_char) v with Some c -> "OK x" ^ hex [c] | None -> exc), "?"
+  | "flt" -> (match via_tree (c12_parse_scalar c12_extract_double) v with Some d -> "OK " ^ decf d | None -> exc), "?"
+  | "vecvec" ->
+      let inner s = c12_parse_vector (c12_ity_extract C12Int) s in
+      (match via_tree (fun s -> c12_all_some inner (c12_split s)) v with
+       | Some l -> "OK [" ^ String.concat "," (List.map zlist l) ^ "]" | None -> exc), "?"
   | "bits1" | "bits8" | "bits0" ->
       let n = int_of_string (String.sub ty 4 1) in
       (match via_tree (c12_parse_bitset (nat_of_int n)) v with Some l -> "OK " ^ bits l | None -> exc),
@@ -250,6 +274,24 @@ let get_case (ty : string) (v : c12_str) : string * string =
 let do_case (line : string) : string =
   let t = Array.of_list (String.split_on_char ' ' (String.trim line)) in
   match t.(0) with
+  | "seq" ->
+    (* object history: sources / command lines one after the other into one tree or into one of its subtrees *)
+    let run qh =
+      let root = ref c12_empty and sts = Buffer.create 32 in
+      let i = ref 2 in
+      while !i + 1 < Array.length t do
+        let step = t.(!i) and arg = t.(!i + 1) in
+        let f tr =
+          if step.[0] = 'I' then
+            let r = c12_parse_ini qh (str_field arg) tr (step.[1] = '1') in (r.c12_ir_tree, r.c12_ir_status)
+          else c12_read_options (strs_field arg) tr in
+        let (tr', st) = if t.(1) = "-" then f !root else c12_in_sub !root (c12_path (str_field t.(1))) f C12RangeError in
+        root := tr'; Buffer.add_string sts (status_str st ^ ",");
+        i := !i + 2
+      done;
+      Buffer.contents sts ^ " " ^ dump !root in
+    let a = run false and b = run true in
+    (if a = b then a else a ^ " ~ " ^ b) ^ " | ?"
   | "nofile" -> "IOError IOError {|} | IOError IOError {|}"
   | "ini" | "inif" ->
     let ow = t.(1) = "1" in
